@@ -1024,7 +1024,99 @@ def scenario_wellformed(exe, mode_arg, payload):
     print('no failing input among %d (source, language) runs' % len(jobs))
 
 
-SCENARIOS = {'runs': scenario_runs, 'config': scenario_config, 'determinism': scenario_determinism, 'robust': scenario_robust, 'unsupported': scenario_unsupported, 'multifile': scenario_multifile, 'wellformed': scenario_wellformed}
+# ------------------------------------------------------------------------------------------------ C09: names at definitions vs uses (emitted text)
+RN_SRC = ('#[typeshare]\n#[serde(rename = "StructNew")]\npub struct StructOld { pub a: u32 }\n'
+          '#[typeshare]\n#[serde(rename = "UnitNew")]\npub enum UnitOld { A, B }\n'
+          '#[typeshare]\n#[serde(rename = "AlgNew")]\n#[serde(tag = "t", content = "c")]\npub enum AlgOld { A(StructOld), B { x: UnitOld, y: Vec<StructOld> }, C }\n'
+          '#[typeshare]\n#[serde(rename = "AliasNew")]\npub type AliasOld = Vec<StructOld>;\n'
+          '#[typeshare]\n#[serde(rename = "GenNew")]\npub struct GenOld<T> { pub t: T, pub v: Vec<T> }\n'
+          '#[typeshare]\npub struct Plain { pub id: u32 }\n'
+          '#[typeshare]\n#[serde(tag = "t", content = "c")]\npub enum PlainAlg { P(Plain), Q { p: Plain, all: Vec<Plain> } }\n'
+          '#[typeshare]\npub struct Uses { pub s: StructOld, pub u: Option<UnitOld>, pub e: AlgOld, pub al: AliasOld, pub g: GenOld<StructOld>, pub m: HashMap<String, Vec<AlgOld>>, '
+          'pub k: HashMap<UnitOld, StructOld>, pub arr: [StructOld; 2], pub p: Plain, pub pa: PlainAlg }\n'
+          '#[typeshare]\npub type UsesAlias = HashMap<String, Option<GenOld<UnitOld>>>;\n'
+          # a type that happens to be called like a generic parameter, and is renamed: the parameter must stay the parameter
+          '#[typeshare]\n#[serde(rename = "Item")]\npub struct T { pub a: u32 }\n#[typeshare]\npub struct GenShadow<T> { pub only_param: T, pub params: Vec<T> }\n'
+          '#[typeshare]\npub struct UsesT { pub t: T }\n')
+RN_TYPES = [('StructOld', 'StructNew'), ('UnitOld', 'UnitNew'), ('AlgOld', 'AlgNew'), ('AliasOld', 'AliasNew'), ('GenOld', 'GenNew'), ('Plain', 'Plain'), ('PlainAlg', 'PlainAlg'),
+            ('Uses', 'Uses'), ('UsesAlias', 'UsesAlias')]
+RN_CONFIGS = [('typescript', 'ts', [], ''), ('kotlin', 'kt', ['--java-package', 'com.x'], ''), ('kotlin', 'kt', ['--java-package', 'com.x', '--kotlin-prefix', 'Pf'], 'Pf'),
+              ('swift', 'swift', [], ''), ('swift', 'swift', ['--swift-prefix', 'Pf'], 'Pf'), ('scala', 'scala', ['--scala-package', 'com.x'], ''), ('python', 'py', [], ''),
+              ('go', 'go', ['--go-package', 'p'], '')]
+RN_DEF = {
+    'typescript': r'export (?:interface|type|enum) (\w+)', 'kotlin': r'(?:class|typealias|object|interface) (\w+)', 'swift': r'(?:struct|enum|typealias|class) (\w+)',
+    'scala': r'(?:class|type|object|trait) (\w+)', 'go': r'(?m)^type (\w+)', 'python': r'(?m)^(?:class (\w+)|(\w+) = )',
+}
+
+
+def strip_noncode(lang, text):
+    """the generated text without comments and string literals (so that names in doc text / wire names do not count as uses)"""
+    if lang == 'python':
+        text = re.sub(r'"""(?:.|\n)*?"""', '', text)
+        text = re.sub(r'#[^\n]*', '', text)
+        return re.sub(r'"(?:\\.|[^"\\\n])*"', '""', text)
+    text = re.sub(r'/\*(?:.|\n)*?\*/', '', text)
+    text = re.sub(r'//[^\n]*', '', text)
+    text = re.sub(r'"(?:\\.|[^"\\\n])*"', '""', text)
+    return re.sub(r'`[^`\n]*`', '``', text) if lang == 'go' else text
+
+
+def refnames_case(exe, lang, ext, largs, prefix):
+    top = tempfile.mkdtemp(prefix='clirun-', dir=WORK)
+    try:
+        src = os.path.join(top, 'src')
+        tree(src, {'c/src/lib.rs': RN_SRC})
+        outp = os.path.join(top, 'out.' + ext)
+        rc, out = run(exe, ['--lang', lang] + largs + ['--output-file', outp, src], cwd=src, timeout=20)
+        if rc != 0 or not os.path.exists(outp):
+            return None if (rc == 'timeout' or 'panicked at' in out) else 'the run failed on a supported input (rc=%s): %s' % (rc, ' '.join(out.split())[-160:])
+        code = strip_noncode(lang, open(outp, encoding='utf-8').read())
+        defined = set()
+        for m in re.finditer(RN_DEF[lang], code):
+            defined.update(g for g in m.groups() if g)
+        stems = sorted({x for pair in RN_TYPES for x in pair}, key=len, reverse=True)
+        for tok in sorted(set(re.findall(r'[A-Za-z_][A-Za-z0-9_]*', code))):
+            # a type-like token built on one of the corpus' type names (with the configured prefix, with a helper suffix): it must be a defined name,
+            # or a name the back end derives from a defined name (Go: FooTs / FooTVariantA / NewFoo..; Python / Kotlin / Swift: members inside the type)
+            t = tok[len(prefix):] if prefix and tok.startswith(prefix) else tok
+            stem = next((x for x in stems if t.startswith(x)), None)
+            if not stem or tok in defined:
+                continue
+            rest = t[len(stem):]
+            if rest and not re.fullmatch(r'[A-Z]\w*Inner', rest):
+                continue        # some other identifier that merely starts like a type name (constants, constructors, enum members)
+            return '`%s` is used in the generated %s code but no definition of that name is emitted (defined: %s)' % (tok, lang, sorted(d for d in defined if any(x in d for x in stems))[:14])
+        for l in code.splitlines():
+            if re.search(r'(?i)only_?param|params\b', l) and re.search(r'\bItem\b', l) and 'Uses' not in l:
+                return 'the generic parameter `T` of GenShadow<T> is written as `Item` (the serde name of an unrelated type called T): `%s`' % l.strip()[:120]
+        return None
+    finally:
+        shutil.rmtree(top, ignore_errors=True)
+
+
+def scenario_refnames(exe, mode_arg, payload):
+    """C09 bound (emitted text): ONE source with serde(rename) on a struct, a unit enum, an algebraic enum with tuple and struct variants, a type alias and
+    a generic struct, each used as field type, Option / Vec / array / map value and key, generic argument, variant payload, struct-variant field and alias
+    target, next to types without rename x 8 configurations (6 languages; Kotlin and Swift also with a prefix): in the generated code (comments and string
+    literals removed) every token that is one of these type names - Rust or renamed, with the prefix, with the `..Inner` helper suffix - must be a name
+    the same file defines; and a generic parameter that shares its name with a renamed type is still written as the parameter."""
+    if mode_arg == 'check':
+        m = refnames_case(exe, payload['lang'], payload['ext'], payload['largs'], payload['prefix'])
+        if m:
+            witness(payload, m)
+        print('input passes'); return
+    n = 0
+    for (lang, ext, largs, prefix) in RN_CONFIGS:
+        if lang == 'go':
+            continue      # the recorded finding kf-c09-go-defines-under-rust-name (replayed separately on every run)
+        n += 1
+        m = refnames_case(exe, lang, ext, largs, prefix)
+        if m:
+            witness({'lang': lang, 'ext': ext, 'largs': largs, 'prefix': prefix}, m)
+    print('no failing input among %d configurations' % n)
+
+
+SCENARIOS = {'runs': scenario_runs, 'config': scenario_config, 'determinism': scenario_determinism, 'robust': scenario_robust, 'unsupported': scenario_unsupported, 'multifile': scenario_multifile, 'wellformed': scenario_wellformed, 'refnames': scenario_refnames}
 
 
 def main():
